@@ -63,6 +63,10 @@ def same(a, b):
     return a == b
 
 
+class Skip(Exception):
+    pass
+
+
 class Color(enum.IntEnum):
     RED = 1
     BLUE = 2
@@ -249,14 +253,21 @@ def run_one(choices, params):
             try:
                 return fn()
             except UnicodeEncodeError as e:
-                raise core.Violation("send-failed/UnicodeEncodeError", "%s: %r could not be sent: %s" % (where, orig, e), sig=D2_SIG)
+                v = core.Violation("send-failed/UnicodeEncodeError", "%s: %r could not be sent: %s" % (where, orig, e), sig=D2_SIG)
+                if isinstance(orig, str) and any(0xD800 <= ord(ch) <= 0xDFFF for ch in orig):
+                    deferred.append(v)      # recorded finding D2: keep judging the rest of the history
+                    raise Skip()
+                raise v
 
+        deferred = []
         held = {}           # B pool index -> proxy A holds
         wr = {}
         nsteps = 6 + w.draw(25)
         def one_step(step):
             try:
                 return one_step2(step)
+            except Skip:
+                return None
             except (core.Violation, core.SimAbort, core.SimKilled):
                 raise
             except Exception as e:
@@ -459,6 +470,8 @@ def run_one(choices, params):
         rootbox.clear()
         ca.close()
         sim.block(lambda: srv.state == core.DONE, 5, "wait-B")
+        if deferred:
+            raise deferred[0]
         return True
 
     out, sim = H.simulate(choices, main, strategy=strat, netcfg=cfg, step_cap=800000)
